@@ -251,8 +251,8 @@ test_br = Fn(S, 'run_exp_test_br', rename='run_exp_test_br_real', ret='r',
              ('C11+C15.test_br.what_the_tests_wrote_is_in_the_result_list_and_their_status_is_not_a_failure', 'tests_first(r.0@, *final(tl))')],
     loops={0: Loop(invariant=[('C03+C15.inv.test_br.flag', 'test_pass == tl.pass && args@.len() >= 1'),
                               ('C11+C15.inv.test_br.tests_first', 'tests_first(cr_list@, *tl) && cr_list@.len() == tl.outs.len()')]),
-           1: Loop(invariant=[('C11+C15.inv.test_br.appending', 'cr_list@.len() == g_n + __i1 && tl.outs.len() == g_n + __v1@.len() && tl.outs.subrange(g_n as int, tl.outs.len() as int) == outs_of(__v1@) '
-                               '&& test_pass == tl.pass && args@.len() >= 1 '
+           1: Loop(invariant=[('C03+C15.inv.test_br.flag_while_the_results_are_kept', 'test_pass == tl.pass && args@.len() >= 1'),
+                              ('C11+C15.inv.test_br.appending', 'cr_list@.len() == g_n + __i1 && tl.outs.len() == g_n + __v1@.len() && tl.outs.subrange(g_n as int, tl.outs.len() as int) == outs_of(__v1@) '
                                '&& forall|k: int| 0 <= k < cr_list@.len() ==> (#[trigger] cr_list@[k]).status == 0 && (cr_list@[k].stdout@, cr_list@[k].stderr@) == tl.outs[k]')])},
     hints={'after-call:run_command_line': 'note_test(tl, _cr_list@.len() > 0 && _cr_list@.last().status == 0); ;;; RAW: let ghost g_n = cr_list@.len(); proof { note_outs(tl, _cr_list@); }',
            'before-text-all:test_pass = true;': 'note_test(tl, true);',
